@@ -313,13 +313,18 @@ def check_range(model, rep):
                         bad.append(mem.qualname)
                     elif mem.name == '__init__':
                         par = [a for a in ast.walk(mem.node) if isinstance(a, ast.Assign) and n in a.targets]
-                        if par and not (isinstance(par[0].value, ast.Constant) and par[0].value.value in (1, 1.0)):
+                        if par and not (isinstance(par[0].value, ast.Constant) and isinstance(par[0].value.value, (int, float))
+                                        and not isinstance(par[0].value.value, bool) and -1 <= par[0].value.value <= 1):
                             bad.append(f'{mem.qualname} (initial value {ast.unparse(par[0].value)})')
     rep.decide(not bad, 'C14.range', 'DCMotor.__pwm:writers', f'the private duty cycle is also written by {bad}', loc=st.loc)
     init = model.member('DCMotor', '__init__')
-    has_init = any(isinstance(a, ast.Assign) and any(isinstance(t, ast.Attribute) and t.attr == fld for t in a.targets)
-                   and isinstance(a.value, ast.Constant) and a.value.value in (1, 1.0) for a in ast.walk(init.node))
-    rep.decide(has_init, 'C14.range', 'DCMotor.__init__:pwm', 'the constructor does not initialise the duty cycle to 1', loc=init.loc)
+    # the property bounds every recorded duty cycle, it does not fix the one a motor starts with: the constructor may start from a
+    # constant inside [-1, 1] (stored directly) or hand its value to the validating setter
+    has_init = any(isinstance(a, ast.Assign) and any(isinstance(t, ast.Attribute) and isinstance(t.value, ast.Name) and t.value.id == 'self'
+                                                     and (t.attr == fld and isinstance(a.value, ast.Constant) or t.attr == 'pwm')
+                                                     for t in a.targets) for a in ast.walk(init.node))
+    rep.decide(has_init, 'C14.range', 'DCMotor.__init__:pwm', 'the constructor does not give the duty cycle an initial value (a constant in '
+               '[-1, 1] or a value checked by the setter)', loc=init.loc)
     # recorder appends the live pwm: the per-class recorder evaluation of C17, restricted to the motor's pwm key
     from sa.core import Report
     from checks.c17 import check_classes
